@@ -37,6 +37,8 @@ CONSTANTS
   StoreMetaFirst,       \* FALSE (code: the active metas are replaced AFTER the durable write) | TRUE (seeded C11-s9)
   ReplaceStaleDel,      \* TRUE (code since the F45 repair: a left-over delete file of the same name is replaced)
                         \* | FALSE (open_write refuses it: the commit fails on a healthy storage)
+  GcProtectsMergeSources, \* TRUE (code: the living files are those of EVERY live SegmentMeta, also the older metas a
+                        \* running merge holds) | FALSE (seeded C10-s19: only the newest meta of each segment counts)
   KillWaits             \* TRUE (code since the F43 repair: rollback waits for the task the old updater is running)
                         \* | FALSE (the task goes on next to the new writer and saves ITS metas)
 
@@ -59,7 +61,7 @@ vars == <<svars, regs, building, nextS, upc, ujob, gc, ncommit, active, ondisk, 
 Seg(s) == "s" \o ToString(s)
 Del(s, n) == "d" \o ToString(s) \o "." \o ToString(n)
 FilesOf(R) == {Seg(r.s) : r \in R} \cup {Del(r.s, r.del) : r \in {x \in R : x.del > 0}}
-NoB == [s |-> 0, by |-> "none", pc |-> "none", src |-> {}]
+NoB == [s |-> 0, by |-> "none", pc |-> "none", src |-> {}, hold |-> {}]
 NoJob == [kind |-> "none", newregs |-> {}, op |-> 0, publish |-> FALSE]
 NoGc == [todo |-> {}, done |-> {}]
 NoStale == [pc |-> "none", job |-> NoJob]
@@ -73,7 +75,7 @@ Init ==
 (* ------------------------------ builder: worker or merge thread ------------------------------ *)
 StartWorker ==
   /\ building = NoB /\ nextS <= NSeg
-  /\ building' = [s |-> nextS, by |-> "worker", pc |-> IF RegisterFirst THEN "register" ELSE "create", src |-> {}]
+  /\ building' = [s |-> nextS, by |-> "worker", pc |-> IF RegisterFirst THEN "register" ELSE "create", src |-> {}, hold |-> {}]
   /\ nextS' = nextS + 1
   /\ UNCHANGED <<svars, regs, upc, ujob, gc, ncommit, active, ondisk, faults, stale, ackedIdx>>
 \* start_merge runs on the updater: two segments of the same status
@@ -81,9 +83,16 @@ StartMerge ==
   /\ building = NoB /\ nextS <= NSeg /\ upc = "idle"
   /\ \E a, b \in regs :
        /\ a.s < b.s /\ a.st = b.st
-       /\ building' = [s |-> nextS, by |-> "merge", pc |-> IF RegisterFirst THEN "register" ELSE "create", src |-> {a.s, b.s}]
+       \* the merge operation holds the SegmentMetas of its sources as they are NOW (with their
+       \* current delete files) until it ends; its thread opens them in a later step
+       /\ building' = [s |-> nextS, by |-> "merge", pc |-> "open", src |-> {a.s, b.s}, hold |-> FilesOf({a, b})]
   /\ nextS' = nextS + 1
   /\ UNCHANGED <<svars, regs, upc, ujob, gc, ncommit, active, ondisk, faults, stale, ackedIdx>>
+\* the merge thread opens its sources (SegmentReader::open of the metas it holds)
+BuildOpen ==
+  /\ building.pc = "open"
+  /\ building' = [building EXCEPT !.pc = IF RegisterFirst THEN "register" ELSE "create"]
+  /\ UNCHANGED <<svars, regs, nextS, upc, ujob, gc, ncommit, active, ondisk, faults, stale, ackedIdx>>
 BuildRegister ==
   /\ building.pc = "register"
   /\ AWriteMan(LastMan \cup {Seg(building.s)})
@@ -201,6 +210,7 @@ EndMerge ==
 (* ------------------------------ garbage collection ------------------------------ *)
 \* list_files(): every live SegmentMeta (registers AND the segment a merge thread is building)
 Living == FilesOf(regs) \cup active \cup (IF GcProtectsBuilding /\ building # NoB THEN {Seg(building.s)} ELSE {})
+            \cup (IF GcProtectsMergeSources THEN building.hold ELSE {})
 GcList ==
   /\ upc = "gc"
   /\ gc' = [todo |-> LastMan \ Living, done |-> {}]
@@ -252,7 +262,7 @@ StaleMeta ==
 
 Next ==
   \/ Rollback \/ StaleSync \/ StaleMeta
-  \/ StartWorker \/ StartMerge \/ BuildRegister \/ BuildCreate \/ BuildTerm \/ AddSegment
+  \/ StartWorker \/ StartMerge \/ BuildOpen \/ BuildRegister \/ BuildCreate \/ BuildTerm \/ AddSegment
   \/ StartCommit \/ CommitDelFile \/ UpdSync1 \/ UpdMeta \/ UpdMetaFail \/ Reopen \/ ExplicitGc \/ UpdSync2 \/ EndMerge
   \/ GcList \/ GcDel \/ GcSync \/ GcDone
 Spec == Init /\ [][Next]_vars
@@ -275,5 +285,7 @@ GcTight == [][(upc = "gcman" /\ upc' = "idle" /\ building = NoB /\ stale = NoSta
 \* C10 (never delete what is needed): a visible meta.json never loses a file
 NeverDeletesNeeded == \A f \in LastMeta.files : f \in exists
 \* a file under construction is never deleted under its writer
+\* a merge that has not opened its sources yet still finds every file of the metas it holds
+MergeSourcesReadable == building.pc = "open" => building.hold \subseteq exists
 NeverDeletesBuilding == building.pc \in {"term", "done"} /\ RegisterFirst => Seg(building.s) \in exists
 =============================================================================
